@@ -146,7 +146,7 @@ func genMixed(seed uint64, fam string, pf profile) *Scenario {
 		b.Pre = g.randDecs(pf.maxDecs, pf.syncP, pf.slowP)
 		b.App = g.randDecs(pf.maxDecs, pf.syncP, pf.slowP)
 		if r.Chance(pf.listenerP, 100) {
-			d := DecSpec{Kind: "listener", Wrap: r.PickS("", "oncomplete", "meta", "deep", "both"), Depth: r.Range(1, 3)}
+			d := DecSpec{Kind: "listener", Wrap: r.PickS("", "oncomplete", "meta", "deep", "both"), Depth: r.Range(1, 3), Vary: r.Intn(2)}
 			if r.Bool() {
 				b.Pre = append(b.Pre, d)
 			} else {
@@ -221,7 +221,7 @@ func genMixed(seed uint64, fam string, pf profile) *Scenario {
 			case x < 89:
 				ops = append(ops, Op{K: r.PickS("proxyread", "proxywrite"), B: bi, N: int64(r.Intn(20))})
 			case x < 90:
-				ops = append(ops, Op{K: r.PickS("avgadjust", "ewmasetcur", "incrby", "enable", "barwaitdone"), B: bi, N: int64(r.Intn(3))})
+				ops = append(ops, Op{K: r.PickS("avgadjust", "ewmaincrby", "incrby", "enable", "barwaitdone"), B: bi, N: int64(r.Intn(3))})
 			case x < 93 && sc.Mode != "none":
 				ops = append(ops, Op{K: "waitcycles", N: int64(r.Range(1, 3))})
 			default:
@@ -399,11 +399,22 @@ func genFor(prop, part string, seed uint64) *Scenario {
 		pf.trigP = 70
 		pf.modes = []string{"auto", "auto", "manual", "none"}
 	case "C16":
+		if part == "err" {
+			sc := genC15(seed, common.NewRng(seed).PickS("filler", "filler", "output"))
+			sc.Fam = "C16/err"
+			return sc
+		}
 		pf.late = false
 		pf.endKinds = []string{"natural", "natural", "cancel", "shutdown"}
 		pf.afterP = 20
 		pf.popP = 30
 	case "C05":
+		if part == "err" {
+			sc := genC15(seed, "filler")
+			sc.Fam = "C05/err"
+			sc.Notifier = true
+			return sc
+		}
 		pf.modes = []string{"auto", "auto", "manual"}
 		pf.delayP = 0
 		pf.clientAddP = 50
@@ -440,6 +451,31 @@ func genFor(prop, part string, seed uint64) *Scenario {
 	sc := genMixed(seed, prop+"/"+part, pf)
 	if prop == "C13" {
 		c13Boost(sc, common.NewRng(seed^0x13))
+	}
+	if prop == "C14" && len(sc.Bars) > 0 {
+		// observers parked in Bar.Wait when the cancellation lands
+		r := common.NewRng(seed ^ 0x14)
+		for w := 0; w < r.Range(0, 3); w++ {
+			var ops []Op
+			for k := 0; k < r.Range(1, 3); k++ {
+				bi := r.Intn(len(sc.Bars))
+				if sc.Bars[bi].AddBy == -1 {
+					ops = append(ops, Op{K: "barwaitget", B: bi})
+					// many listeners stretch the bar's exit path (one goroutine is started per listener)
+					if r.Bool() && len(sc.Bars[bi].App) < 20 {
+						for x := 0; x < 30; x++ {
+							sc.Bars[bi].App = append(sc.Bars[bi].App, DecSpec{Kind: "listener", Vary: r.Intn(2)})
+						}
+						if sc.Width < 400 {
+							sc.Width = 400
+						}
+					}
+				}
+			}
+			if len(ops) > 0 {
+				sc.Waiters = append(sc.Waiters, ops)
+			}
+		}
 	}
 	return sc
 }
